@@ -595,10 +595,10 @@ impl Exec {
                     if l1 < crate::model::MIN_EPOCH_LENGTH || l1 > crate::model::MAX_EPOCH_LENGTH {
                         self.viol("C07", "epoch_length_outside_consensus_bounds", format!("epoch {} length {l1}", e.number()));
                     }
-                    if l0 >= crate::model::MIN_EPOCH_LENGTH && (l1 > l0 * 2 || l1 * 2 < l0) {
+                    if l0 >= crate::model::MIN_EPOCH_LENGTH && (l1 > l0 * 2 || l1 < l0 / 2) {
                         self.viol("C07", "epoch_length_changed_by_more_than_tau", format!("{l0} -> {l1}"));
                     }
-                    if l1 == l0 * 2 || l1 * 2 == l0 || l1 == crate::model::MIN_EPOCH_LENGTH || l1 == crate::model::MAX_EPOCH_LENGTH {
+                    if l1 == l0 * 2 || l1 == l0 / 2 || l1 == crate::model::MIN_EPOCH_LENGTH || l1 == crate::model::MAX_EPOCH_LENGTH {
                         self.res.probes.inc("epoch_length_at_a_bound");
                     }
                     let d = bigmath::compact_to_difficulty(e.compact_target());
